@@ -185,3 +185,8 @@ Definition case_bad_cur (c : ccase) : bool := negb (expect_eqb (run_model false 
 Definition case_show_fixed (c : ccase) : expect := run_model true (Some max_block_depth) c.
 Definition case_show_a (c : ccase) : expect := run_model true None c.
 Definition case_show_cur (c : ccase) : expect := run_model false None c.
+
+(* any version: the harness names the version it found in the tree under test *)
+Definition case_bad_v (fixed : bool) (cap : option nat) (c : ccase) : bool :=
+  negb (expect_eqb (run_model fixed cap c) (c_expect c)).
+Definition case_show_v (fixed : bool) (cap : option nat) (c : ccase) : expect := run_model fixed cap c.
